@@ -688,6 +688,8 @@ def run(chk):
     _freshbudget_rule(chk, prog, cg)
     _protowalk_rule(chk, prog)
     _tailflag_rule(chk, prog)
+    _depthbalance_rule(chk, prog)
+    _markspill_rule(chk, prog)
 
 
 def _freshbudget_rule(chk, prog, cg):
@@ -871,3 +873,110 @@ def _tailflag_rule(chk, prog):
                           "no option block that %s passes to janetc_value inherits JANET_FOPTS_TAIL from its own options (%s): a call in the "
                           "last position of this form is no longer a tail call, and tail-recursive loops through it overflow the fiber's "
                           "stack" % (name, ", ".join("%s: %s" % (k, "inherits" if v else "drops TAIL") for k, v in sorted(inherit.items())) or "none derived from opts"))
+
+
+def _depthbalance_rule(chk, prog):
+    """Several recursive routines bound their native recursion with a counter they step down on the way in and up on
+    the way out (the collector's mark depth, the printer's S->depth, the PEG compiler's b->depth).  A path that
+    returns without the matching step leaves the counter one too low; with an equality test (`== 0`) the next
+    container takes it below zero and the limit never fires again: unbounded native recursion."""
+    rule = "C19-DEPTHBALANCE"
+    chk.rule(rule, "a routine that steps a recursion-depth counter down returns with it stepped back up on every path")
+    n = 0
+    for fn in prog.all_funcs():
+        if fn.name == "peg_rule":
+            continue            # down1 / up1 in the matcher: decided by C12-DEPTH
+        steps = {}
+        for x in fn.nodes:
+            if x.k == "un" and x.op in ("post--", "pre--", "post++", "pre++"):
+                t = strip_casts(x.kids[0])
+                if (t.k == "mem" and t.field == "depth") or (t.k == "ref" and t.name == "depth"):
+                    steps.setdefault(t.text(), []).append(x)
+        for key, xs in sorted(steps.items()):
+            if not (any("--" in x.op for x in xs) and any("++" in x.op for x in xs)):
+                continue
+            n += 1
+            chk.instance(rule)
+            chk.analysed(fn)
+            ids = {id(x): (-1 if "--" in x.op else 1) for x in xs}
+
+            def transfer(st, x, ids=ids):
+                d = ids.get(id(x), 0)      # every sub-expression is a CFG element of its own: count the step itself only
+                if not d:
+                    return st
+                cur = [int(t[2:]) for t in st if t.startswith("n=")]
+                v = max(-3, min(3, (cur[0] if cur else 0) + d))
+                return frozenset([t for t in st if not t.startswith("n=")] + ["n=%d" % v])
+            IN, OUT, T = flow.forward_paths(fn, frozenset(["n=0"]), transfer, cap=64)
+            bad = None
+            for b, kind in flow.exits(fn):
+                if kind != "return" or b.id not in OUT:
+                    continue
+                for st in OUT[b.id]:
+                    v = [int(t[2:]) for t in st if t.startswith("n=")]
+                    if v and v[0] != 0:
+                        bad = (b, v[0])
+            if bad is None:
+                chk.ok(rule, "%s: %s balanced on every returning path" % (fn.name, key))
+            else:
+                b, v = bad
+                where = (b.term or (b.elems[-1] if b.elems else None))
+                chk.violation(rule, fn.tu.name, fn.name, "unbalanced:" + key.replace(" ", ""), where.loc if where is not None else fn.loc,
+                              "%s can return with `%s` %d step(s) %s than on entry: the depth limit is an equality test on this counter, "
+                              "so after the leak the next container steps past zero and everything below it recurses without any limit "
+                              "(native stack overflow on deep data)" % (fn.name, key, abs(v), "lower" if v < 0 else "higher"))
+    chk.floor(rule, 3, n)
+
+
+def _markspill_rule(chk, prog):
+    """When janet_mark has used up its native depth it does not descend: it parks the value on the root list and
+    janet_collect marks it later.  Parking must not depend on anything that could be wrong about the value: a value
+    that is neither descended into nor parked stays unmarked and is freed while it is reachable."""
+    rule = "C19-MARKSPILL"
+    chk.rule(rule, "out of depth, janet_mark parks the value unconditionally (or under a test that covers every type its own switch marks)")
+    fn = prog.need_func("janet_mark", "gc.c")
+    chk.analysed(fn)
+    parks = fn.calls("janet_gcroot")
+    if not parks:
+        raise AnalysisBroken("janet_mark: the out-of-depth spill (janet_gcroot) was not found")
+    own = set()
+    for sw in [x for x in fn.nodes if x.k == "switch"]:
+        for c in switch_cases_local(sw):
+            own.add(c)
+    byname = {f.name: f for f in prog.tus["gc.c"].funcs.values()}
+    IN, T = flow.condition_facts(fn)
+    for x, S in flow.states_at(fn, IN, T):
+        if x not in parks:
+            continue
+        chk.instance(rule)
+        bad = None
+        for ps in S:
+            for (op, l, r, toks, ln, rn) in ps:
+                if ln is None:
+                    continue
+                e = strip_casts(ln)
+                if e.k == "ref" and e.name == "depth":
+                    continue
+                # a filter: acceptable only if it is a function over the value whose switch names every type janet_mark marks
+                g = byname.get(e.callee) if e.k == "call" else None
+                covered = set()
+                if g is not None:
+                    for sw in [y for y in g.nodes if y.k == "switch"]:
+                        covered |= set(switch_cases_local(sw))
+                missing = sorted(own - covered)
+                if g is None or missing:
+                    bad = (e, missing)
+        if bad is None:
+            chk.ok(rule, "janet_mark: out of depth the value is always parked on the root list")
+        else:
+            e, missing = bad
+            chk.violation(rule, "gc.c", "janet_mark", "conditional-spill", x.loc,
+                          "out of depth janet_mark parks the value only if `%s`%s: a value that is neither descended into nor parked "
+                          "stays unmarked, is finalized and freed while it is reachable" % (
+                              e.text()[:50], (", which does not handle %s" % ", ".join(missing)) if missing else ""))
+    chk.floor(rule, 1, len(parks))
+
+
+def switch_cases_local(sw):
+    from jv.util import switch_cases, case_name
+    return [case_name(c) for c in switch_cases(sw) if c.k == "case"]
